@@ -478,8 +478,7 @@ class ExprMixin:
                 n = len(base)
                 inr = zand(idx >= ops.int_const(0), idx < ops.int_const(n))
                 # negative indices are legal Python but outside the accepted subset: obligation
-                if self.ctx.branch(idx >= ops.int_const(n), w):
-                    raise PyRaise("IndexError", w)
+                self.ctx.guard_error(idx >= ops.int_const(n), "IndexError", w)
                 self.ctx.oblige("safety:index-non-negative@" + w, idx >= ops.int_const(0), w, "safety")
                 if n == 0:
                     raise Killed()
@@ -487,6 +486,11 @@ class ExprMixin:
             raise Unsupported("index %r at %s" % (idx, w))
         if isinstance(base, SymList):
             idx = ops.lift_int(idx)
+            if self.ctx.nofork:
+                t = z3.Select(base.arr, idx)      # logical read inside a specification formula
+                if self.ctx.qreads is not None:
+                    self.ctx.qreads.append((t, idx))
+                return t
             if self.ctx.branch(idx >= base.length, w):
                 raise PyRaise("IndexError", w)
             self.ctx.oblige("safety:index-non-negative@" + w, idx >= ops.int_const(0), w, "safety")
